@@ -57,11 +57,33 @@ def load_known():
     return json.load(open(p))
 
 
-def load_expected():
+def load_expected(tier='quick'):
+    """obligations generated on the pinned (repaired) tree, per tier:
+    {property: [names]} (tools/mkexpected.py)"""
     p = os.path.join(VERIF_ROOT, 'expected_obligations.json')
     if not os.path.exists(p):
         return {}
-    return json.load(open(p))
+    d = json.load(open(p))
+    if 'quick' in d or 'thorough' in d:
+        return d.get(tier, {})
+    return d
+
+
+def missing_obligations(prop, expected, obs):
+    """vacuity guard: obligations that the pinned tree generates and this run
+    did not, unless their contract is reported as outside the modelled
+    subset (then its `reach` obligation stands for them)"""
+    present = set(o.name for o in obs)
+    reach = [o.name[:-len(':reach')] for o in obs if o.name.endswith(':reach')]
+    out = []
+    for n in expected.get(prop, []):
+        if n in present:
+            continue
+        m = n.replace(prop + ':lemma:', prop + ':', 1)
+        if any(n.startswith(b + ':') or m.startswith(b + ':') for b in reach):
+            continue
+        out.append(n)
+    return out
 
 
 def scan_trusted(files):
@@ -525,7 +547,7 @@ def main(argv=None):
     items = [c for c in items if not (getattr(c, 'tier', 'quick') ==
                                       'thorough' and tier == 'quick')]
     known = load_known()
-    expected = load_expected()
+    expected = load_expected(tier)
     if a.shard:
         i, n = [int(x) for x in a.shard.split('/')]
         mine = [c for k, c in enumerate(items) if k % n == i]
@@ -633,6 +655,11 @@ def main(argv=None):
              len(errors), (' bounded_only=%d' % n_bonly) if n_bonly else '', time.time() - t0))
     for o in undec:
         print('  UNDECIDED %s: %s' % (o.name, o.detail))
+    missing = [] if (a.only or a.shard) else missing_obligations(prop, expected, obs)
+    for n in missing[:10]:
+        print('  MISSING %s: generated on the pinned tree, absent from this run (coverage lost: undecided)' % n)
+    if len(missing) > 10:
+        print('  MISSING ... and %d more' % (len(missing) - 10))
     for o in obs:
         if o.status == 'bounded':
             print('  NOT-PROVED %s: %s' % (o.name, o.detail))
@@ -655,6 +682,8 @@ def main(argv=None):
         print('  ERROR no obligations generated')
         return 3
     if undec:
+        return 2
+    if missing:
         return 2
     if any(o.status == 'bounded' for o in obs):
         # refuted by the solver, no failing input found natively: undecided
